@@ -1,8 +1,8 @@
 """Which engines serve which property (see DESIGN.md section 4.2 / 5)."""
 
-SKETCH = dict(engine="sketch", scale_quick=1, scale_thorough=12, timeout_quick=600, timeout_thorough=3000)
+SKETCH = dict(engine="sketch", scale_quick=3, scale_thorough=12, timeout_quick=600, timeout_thorough=3000)
 
-SEQ = dict(engine="seq", scale_quick=4, scale_thorough=20, timeout_quick=900, timeout_thorough=6000)
+SEQ = dict(engine="seq", scale_quick=10, scale_thorough=20, timeout_quick=900, timeout_thorough=6000)
 
 SEQ_RULE = ("seq engine: 96 cases per unit of scale cycling through the 12 feature combinations (unbounded/MaximumSize/"
             "MaximumWeight x expiry none|custom/creating/writing/accessing, refresh on in half of the cases) with random "
@@ -15,7 +15,7 @@ SEQ_ASSUME = ["calculators depend on (key, value, current duration) only; creati
               "same-goroutine executor that runs a submitted task after the submitting operation returned",
               "eviction choices are inputs: automatic removals are taken from the implementation's deletion events and checked for legality"]
 
-MAINT = dict(engine="maint", scale_quick=2, scale_thorough=20, timeout_quick=900, timeout_thorough=6000)
+MAINT = dict(engine="maint", scale_quick=5, scale_thorough=20, timeout_quick=900, timeout_thorough=6000)
 MAINT_RULE = ("maint engine: the seq engine restricted to one index action per operation (no bulk/refresh/InvalidateAll), size- or weight-bounded and/or "
               "expiring caches with maxima <= 12 so that the hill climber's floating-point step is zero, 4-8 keys; the hook at the start of cache.maintenance marks "
               "every maintenance run; the extracted Maint/Policy/Wheel/Sketch model replays tasks, read buffer, sweeps and evictions in a closed loop (no oracle "
@@ -24,12 +24,12 @@ MAINT_RULE = ("maint engine: the seq engine restricted to one index action per o
 MAINT_ASSUME = ["single goroutine; the read buffer is one ring (no contention)", "maxima <= 12: hill-climber adjustment is 0 (floating point not modelled)",
                 "window / protected maxima are read from the implementation after SetMaximum (floating point)"]
 
-RING = dict(engine="ring", scale_quick=2, scale_thorough=40, timeout_quick=600, timeout_thorough=3000)
-MPSC = dict(engine="mpsc", scale_quick=2, scale_thorough=30, timeout_quick=600, timeout_thorough=3000)
+RING = dict(engine="ring", scale_quick=6, scale_thorough=40, timeout_quick=600, timeout_thorough=3000)
+MPSC = dict(engine="mpsc", scale_quick=4, scale_thorough=30, timeout_quick=600, timeout_thorough=3000)
 
-HMAP = dict(engine="hmap", scale_quick=1, scale_thorough=12, timeout_quick=900, timeout_thorough=6000)
+HMAP = dict(engine="hmap", scale_quick=3, scale_thorough=12, timeout_quick=900, timeout_thorough=6000)
 
-LOAD = dict(engine="load", scale_quick=1, scale_thorough=15, timeout_quick=900, timeout_thorough=6000)
+LOAD = dict(engine="load", scale_quick=2, scale_thorough=15, timeout_quick=900, timeout_thorough=6000)
 LOAD_RULE = ("load engine: 120 scripted cases per unit of scale over 1-3 keys, 6-20 macro steps each: loader-backed Get / explicit Refresh callers (goroutines), a gated loader whose every invocation "
              "the harness finishes when and how it chooses (value / error / not-found / panic), explicit writes (Set, SetIfAbsent, Compute) and invalidations placed before, during and after loads; "
              "every step is an event of the Coq protocol model, which must predict who joins, who loads, what is installed, who is released and each key's value after every step; "
@@ -37,8 +37,8 @@ LOAD_RULE = ("load engine: 120 scripted cases per unit of scale over 1-3 keys, 6
 LOAD_ASSUME = ["atomicity of hashmap.Compute sections (C15) and of the calls table's get-or-create", "eviction/expiration of a key being loaded is modelled as an invalidation event; the engine exercises it through Invalidate only",
                "timing is used only to decide that a goroutine is blocked (25 ms) — a slow machine can hide a violation, not invent one"]
 
-LIN = dict(engine="lin", scale_quick=2, scale_thorough=40, timeout_quick=900, timeout_thorough=6000)
-DRAIN = dict(engine="drain", scale_quick=2, scale_thorough=30, timeout_quick=900, timeout_thorough=6000, model=False)
+LIN = dict(engine="lin", scale_quick=8, scale_thorough=40, timeout_quick=900, timeout_thorough=6000)
+DRAIN = dict(engine="drain", scale_quick=6, scale_thorough=30, timeout_quick=900, timeout_thorough=6000, model=False)
 
 PROPS = {
     "C02": dict(engines=[LIN],
